@@ -594,8 +594,9 @@ def compute_lpl_field(variant, laa_val: np.ndarray) -> np.ndarray:
     pl_val[pl_val == constants.VCF_INT_MISSING] = constants.INT_MISSING
     # When the PL value is missing in all samples, pl_val has shape (sample_count, 1).
     # In that case, we need to broadcast the PL value.
-    if pl_val.shape[1] < n.shape[1]:
-        pl_val = np.broadcast_to(pl_val, n.shape)
+    num_pl_values = max(n.shape[1], int(n.max()) + 1)
+    if pl_val.shape[1] < num_pl_values:
+        pl_val = np.broadcast_to(pl_val, (n.shape[0], num_pl_values))
     row_index = np.arange(pl_val.shape[0]).reshape(-1, 1)
     lpl_val = pl_val[row_index, n]
     lpl_val[b == constants.INT_FILL] = constants.INT_FILL
